@@ -181,6 +181,11 @@ def run(rep):
             el = np.array(e['lensq'])[:, order]
             if np.abs(lens - el).max() > 1e-6 * max(1.0, el.max()):
                 bad.append(('bond-lengths',))
+            if not rec['cartesian']:
+                # derived operations return new objects and leave the original untouched, in every cell
+                o.normalize(), o.transform(np.eye(3) * 2.0), o.symmetrize(sym_group='-1'), o.autocorrelation(), o.vectors_spherical
+                if not np.array_equal(np.asarray(o.vectors), vec):
+                    bad.append(('vectors-changed-by-a-derived-operation',))
             if rec['cartesian']:
                 scale = 16.0 / N                       # Cartesian = grid * a / N
                 sym = np.array(e['sym'])               # [T][nb*nops][3] in grid units, spec bond order
